@@ -28,7 +28,7 @@ func init() {
 		QuickBudget: 900,
 		Rule: "history tree over a live pool (int, float, str, two arrays, nested array, object, bear child, map with scalar and non-scalar keys, map with several non-scalar keys, range, function, Either value, error wrapper): " +
 			"depth 1 = every property reachable along the prototype chain of every pool value (discovered at run time) x {no argument, each of 10 arguments, 4 argument pairs, trailing function}, every infix operator over all ordered pool pairs, slices, unpacking, chains with chain argument; " +
-			"depth 2 (thorough 3) = all sequences over the container-producing core (~45 templates) whose operands range over the pool and over earlier results; incl. 8 operations whose callee keeps the argument array / [acc, elem] pair it was given (result compared with what each held when created; a value that contains itself is a violation); after every operation the deep fingerprint (Go pointer identity of elements/pairs/keys/bounds, payload, prototype) and Repr of every earlier value and the key lists of the built-in prototypes must be unchanged; " +
+			"depth 2 (thorough 3) = all sequences over the container-producing core (~45 templates) whose operands range over the pool and over earlier results; incl. 8 operations whose callee keeps the argument array / [acc, elem] pair it was given (result compared with what each held when created; a value that contains itself is a violation); after every operation the answers of every pool value to a list of read-only questions of the language itself (length, first/last element, slices, key/value listings, ==, S) and the deep fingerprint (Go pointer identity of elements/pairs/keys/bounds, payload, prototype) and Repr of every earlier value and the key lists of the built-in prototypes must be unchanged; " +
 			"states = histories, transitions = operations executed; non-trivial = operation that returned a value (not an error); distinct = distinct history; round 7: A closure family observes functions by what they return: functions yielded by an iterator, born from one literal evaluated several times (keyword defaults from the enclosing scope, as function, method and iterator) or closing over a container are probed by calls after every operation of every sequence of <=3 (thorough 4) over 20 operations that advance/copy the iterator, evaluate the literals again and call the functions.",
 		Assumptions: []string{
 			"function environments and iterator state are excluded from the fingerprint (the statement allows them to change)",
@@ -62,11 +62,13 @@ dm := a@{|x| x * 2}
 dc := a + [4, 5]
 dr := (1:4).A
 do := {z: 9, **o}
+oc := {swddgEpwqyega: 1, w: 2}
+su := "héllo wörld"
 `
 
-var poolVars = []string{"n", "fl", "s", "a", "a5", "o", "ch", "m", "m2", "r", "f", "nested", "e", "ew", "d3", "dk", "dv", "dm", "dc", "dr", "do"}
+var poolVars = []string{"n", "fl", "s", "a", "a5", "o", "ch", "m", "m2", "r", "f", "nested", "e", "ew", "d3", "dk", "dv", "dm", "dc", "dr", "do", "oc", "su"}
 
-var poolKind = map[string]string{"n": "int", "fl": "float", "s": "str", "a": "arr", "a5": "arr", "o": "obj", "ch": "obj", "m": "map", "m2": "map", "r": "range", "f": "func", "nested": "arr", "e": "either", "ew": "err",
+var poolKind = map[string]string{"n": "int", "fl": "float", "s": "str", "a": "arr", "a5": "arr", "o": "obj", "ch": "obj", "m": "map", "m2": "map", "r": "range", "f": "func", "nested": "arr", "e": "either", "ew": "err", "oc": "obj", "su": "str",
 	"d3": "arr", "dk": "arr", "dv": "arr", "dm": "arr", "dc": "arr", "dr": "arr", "do": "obj"}
 
 type tcase struct {
@@ -205,6 +207,7 @@ func protoPrint() string {
 
 type hrunner struct {
 	c       *core.Ctx
+	probe   *ast.Program
 	prelude *ast.Program
 	cache   map[string]*ast.Program
 }
@@ -215,7 +218,12 @@ func newRunner(c *core.Ctx) *hrunner {
 		c.HarnessError("prelude does not parse: %s", o.ErrMsg)
 		return nil
 	}
-	return &hrunner{c: c, prelude: p, cache: map[string]*ast.Program{}}
+	pp, po := panrun.Parse(probeSrc())
+	if po != nil {
+		c.HarnessError("probe program does not parse: %s", po.ErrMsg)
+		return nil
+	}
+	return &hrunner{c: c, prelude: p, probe: pp, cache: map[string]*ast.Program{}}
 }
 
 func (h *hrunner) parse(src string) *ast.Program {
@@ -233,6 +241,53 @@ func (h *hrunner) parse(src string) *ast.Program {
 }
 
 const cyclicRepr = panrun.CyclicRepr
+
+// behaviour probes: what a value "prints, contains, equals" is also asked through read-only operations of the
+// language itself (a value may look unchanged field by field while an index, a slice or a key listing answers differently)
+var probeByKind = map[string]string{
+	"str":    "[V.len, V[0], V[-1], V[1:3], V[::-1], V.A, V.uc, V == V, V.S, V + \"\"]",
+	"arr":    "[V.len, V[0], V[-1], V[1:3], V[::-1], V.A, V.S, V == V]",
+	"obj":    "[V.keys(private?: true), V.values(private?: true), V.items, V.S, V == V]",
+	"map":    "[V.keys, V.values, V.len, V.S, V == V]",
+	"range":  "[V.A, V.start, V.stop, V.step, V.S]",
+	"int":    "[V.S, V + 0, V == V]",
+	"float":  "[V.S, V + 0, V == V]",
+	"func":   "[V.S]",
+	"either": "[V.S, V.A]",
+	"err":    "[V.S, V.msg]",
+}
+
+func probeSrc() string {
+	var parts []string
+	for _, v := range poolVars {
+		k := poolKind[v]
+		pr, ok := probeByKind[k]
+		if !ok {
+			pr = "[V.S]"
+		}
+		parts = append(parts, replaceWord(pr, "V", v))
+	}
+	return "[" + strings.Join(parts, ", ") + "]"
+}
+
+// takeProbes evaluates the probes in a scope of its own (enclosed in env) and returns one text per pool variable.
+func (h *hrunner) takeProbes(env *object.Env) map[string]string {
+	res := map[string]string{}
+	if h.probe == nil {
+		return res
+	}
+	inner := object.NewEnclosedEnv(env)
+	o := h.c.R().Guard(inner, "", func() object.PanObject { return evaluator.Eval(h.probe, inner) })
+	a, ok := o.Val.(*object.PanArr)
+	if o.Kind != "value" || !ok || len(a.Elems) != len(poolVars) {
+		res["*"] = o.Short()
+		return res
+	}
+	for i, v := range poolVars {
+		res[v] = safeRepr(a.Elems[i])
+	}
+	return res
+}
 
 type snapshot struct {
 	fps   map[string]string
@@ -289,6 +344,13 @@ func (h *hrunner) runHistory(t tcase) {
 			return
 		}
 		before := takeSnapshot(env)
+		probesBefore := h.takeProbes(env)
+		if i == 0 {
+			if msg, bad := probesBefore["*"]; bad {
+				c.HarnessError("the behaviour probes do not evaluate on the fresh pool: %s", msg)
+				return
+			}
+		}
 		res := r.Guard(env, "", func() object.PanObject { return evaluator.Eval(prog, env) })
 		c.Transition(1)
 		c.Outcome(res.Kind)
@@ -330,6 +392,18 @@ func (h *hrunner) runHistory(t tcase) {
 				c.Violation(core.Violation{Key: keyOf(opSrc, name, t), Case: core.JSON(t), Desc: strings.Join(t.Ops[:i+1], "; ") + "  => changes " + name,
 					Expected: name + " = " + before.reprs[name] + " (unchanged)", Observed: name + " = " + after.reprs[name],
 					Repro: preludeSrc + strings.Join(t.Ops[:i+1], "\n") + "\n" + name + ".p\n"})
+				return
+			}
+		}
+		probesAfter := h.takeProbes(env)
+		for _, name := range poolVars {
+			if strings.HasPrefix(opSrc, name+" :=") {
+				continue
+			}
+			if probesAfter[name] != probesBefore[name] || probesAfter["*"] != probesBefore["*"] {
+				c.Violation(core.Violation{Key: "answers-differently/" + poolKind[name] + "/" + opShape(opSrc), Case: core.JSON(t), Desc: strings.Join(t.Ops[:i+1], "; ") + "  => " + name + " answers read-only questions differently",
+					Expected: replaceWord(probeByKind[poolKind[name]], "V", name) + " = " + probesBefore[name] + " (as before the operation)", Observed: probesAfter[name] + probesAfter["*"],
+					Repro: preludeSrc + replaceWord(probeByKind[poolKind[name]], "V", name) + ".p\n" + strings.Join(t.Ops[:i+1], "\n") + "\n" + replaceWord(probeByKind[poolKind[name]], "V", name) + ".p\n"})
 				return
 			}
 		}
@@ -652,6 +726,13 @@ func coreOps(target string, vars []string) []string {
 func gen(h *hrunner, thorough bool, emit func(tcase)) {
 	for _, op := range depth1Ops(h) {
 		emit(tcase{Ops: []string{op}})
+	}
+	// names first used after a value that holds an equal-keyed name exists; strs used as range bounds / stepped
+	for _, op := range []string{"t1 := 'lwvgwfgDAyorc", "t1 := {lwvgwfgDAyorc: 2}", "t1 := {**oc, lwvgwfgDAyorc: 3}", "t1 := \"lwvgwfgDAyorc: 5\".evalEnv", "t1 := oc.lwvgwfgDAyorc",
+		"t1 := (s:\"abf\").A", "t1 := (s:\"abf\")._iter.next", "t1 := s._incBy(1)", "t1 := s._incBy(2)", "t1 := (\"abb\":s).A", "t1 := (s:\"abz\":3).A", "t1 := su._incBy(1)", "t1 := (su:su).A", "t1 := [s, su]@_incBy(1)"} {
+		emit(tcase{Ops: []string{op}})
+		emit(tcase{Ops: []string{op, op}})
+		emit(tcase{Ops: []string{op, "t2 := [s[0], s[-1], su[0], su.len, oc.keys]"}})
 	}
 	// depth 2: core x core (second operation may use the first result)
 	first := coreOps("t1", poolVars)
